@@ -314,6 +314,371 @@ Proof.
 Qed.
 End Remap.
 
+(* ================= the error code is exactly the specified one ================= *)
+(* ---- small list facts ---- *)
+Lemma two_distinct_length {A} (l : list A) x y : In x l -> In y l -> x <> y -> 1 < length l.
+Proof.
+  destruct l as [|a [|b t]]; cbn [length In]; intros Hx Hy Hne; [destruct Hx| |lia].
+  destruct Hx as [<-|[]], Hy as [<-|[]]. congruence.
+Qed.
+Lemma length_two_distinct {A} (l : list A) : NoDup l -> 1 < length l -> exists x y, In x l /\ In y l /\ x <> y.
+Proof.
+  destruct l as [|a [|b t]]; cbn [length]; intros N H; try lia.
+  exists a, b. split; [left; auto|]. split; [right; left; auto|]. intros ->. inversion N as [|? ? Hn _]; subst. apply Hn. left; auto.
+Qed.
+Lemma filter_two {A} (p : A -> bool) l x y : In x l -> In y l -> x <> y -> p x = true -> p y = true -> 1 < length (filter p l).
+Proof. intros Hx Hy Hne Px Py. apply (two_distinct_length _ x y); auto; apply filter_In; auto. Qed.
+Lemma two_filter {A} (p : A -> bool) l : NoDup l -> 1 < length (filter p l) ->
+  exists x y, In x l /\ In y l /\ x <> y /\ p x = true /\ p y = true.
+Proof.
+  intros N H. destruct (length_two_distinct (filter p l) (NoDup_filter p N) H) as (x & y & Hx & Hy & Hne).
+  apply filter_In in Hx as [Hx Px]. apply filter_In in Hy as [Hy Py]. exists x, y. auto.
+Qed.
+Lemma dedup_two l : 1 < length (dedup l) <-> exists a b, In a l /\ In b l /\ a <> b.
+Proof.
+  split.
+  - intro H. destruct (length_two_distinct (dedup l) (dedup_NoDup l) H) as (a & b & Ha & Hb & Hne).
+    exists a, b. rewrite <- !(dedup_In l). auto.
+  - intros (a & b & Ha & Hb & Hne). apply (two_distinct_length _ a b); auto; apply dedup_In; auto.
+Qed.
+Lemma filter_map_comm {A B} (h : A -> B) (p : B -> bool) l : filter p (map h l) = map h (filter (fun x => p (h x)) l).
+Proof. induction l as [|a l IH]; cbn [map filter]; [reflexivity|]. destruct (p (h a)); cbn [map]; rewrite IH; reflexivity. Qed.
+Lemma in_dget {V} (d : list (str * V)) k v : NoDup (map fst d) -> In (k, v) d -> dget k d = Some v.
+Proof.
+  induction d as [|[a b] d IH]; cbn [map fst dget In]; intros N H; [destruct H|]. inversion N as [|? ? Hn Hd]; subst.
+  destruct H as [E|H].
+  - inversion E; subst. rewrite str_eqb_refl. reflexivity.
+  - destruct (str_eqb_spec k a) as [->|Hne]; [|auto]. exfalso. apply Hn. apply in_map_iff. exists (a, v). auto.
+Qed.
+Lemma seq_dup {B} (dec : forall x y : B, {x = y} + {x <> y}) (f : nat -> B) len : forall a, ~ NoDup (map f (seq a len)) ->
+  exists i j, a <= i /\ i < j /\ j < a + len /\ f i = f j.
+Proof.
+  induction len as [|len IH]; intros a H; cbn [seq map] in H; [exfalso; apply H; constructor|].
+  destruct (in_dec dec (f a) (map f (seq (S a) len))) as [Hin|Hn].
+  - apply in_map_iff in Hin as (j & E & Hj). apply in_seq in Hj. exists a, j. repeat split; auto; lia.
+  - destruct (IH (S a)) as (i & j & H1 & H2 & H3 & H4); [intro N; apply H; constructor; auto|].
+    exists i, j. repeat split; auto; lia.
+Qed.
+
+(* ---- the groups of the three duplicate checks ---- *)
+Definition gmem (K : option str) (g : list (option str * list str)) : list str :=
+  match List.find (fun e => okey_eqb K (fst e)) g with Some e => snd e | None => [] end.
+Lemma gmem_group_add K k v g : gmem K (group_add k v g) = if okey_eqb K k then gmem K g ++ [v] else gmem K g.
+Proof.
+  unfold gmem. induction g as [|[k' vs] g IH]; cbn [group_add List.find fst snd].
+  - destruct (okey_eqb K k); reflexivity.
+  - destruct (okey_eqb k k') eqn:E; cbn [List.find fst snd].
+    + apply okey_eqb_eq in E. subst k'. destruct (okey_eqb K k); reflexivity.
+    + destruct (okey_eqb K k') eqn:E2.
+      * apply okey_eqb_eq in E2. subst k'. destruct (okey_eqb K k) eqn:E3; auto.
+        apply okey_eqb_eq in E3. subst. rewrite okey_eqb_refl in E. discriminate.
+      * exact IH.
+Qed.
+Lemma group_add_keys_in k v g x : In x (map fst (group_add k v g)) -> x = k \/ In x (map fst g).
+Proof.
+  induction g as [|[k' vs] g IH]; cbn [group_add map fst In].
+  - intros [<-|[]]; auto.
+  - destruct (okey_eqb k k'); cbn [map fst In]; [auto|]. intros [<-|H]; auto. destruct (IH H); auto.
+Qed.
+Lemma group_add_nodup k v g : NoDup (map fst g) -> NoDup (map fst (group_add k v g)).
+Proof.
+  induction g as [|[k' vs] g IH]; cbn [group_add map fst]; intro N.
+  - constructor; [intros []|constructor].
+  - inversion N as [|? ? Hn Hd]; subst. destruct (okey_eqb k k') eqn:E; cbn [map fst]; [constructor; auto|].
+    constructor; [|auto]. intro Hin. apply group_add_keys_in in Hin as [->|Hin]; [|auto].
+    rewrite okey_eqb_refl in E. discriminate.
+Qed.
+Definition gfold (items : list (option str * str)) (g : list (option str * list str)) :=
+  fold_left (fun g x => group_add (fst x) (snd x) g) items g.
+Lemma gmem_gfold K items : forall g, gmem K (gfold items g) = gmem K g ++ map snd (filter (fun x => okey_eqb K (fst x)) items).
+Proof.
+  induction items as [|x items IH]; intro g; cbn [gfold fold_left filter map]; [rewrite app_nil_r; reflexivity|].
+  fold (gfold items (group_add (fst x) (snd x) g)). rewrite IH, gmem_group_add.
+  destruct (okey_eqb K (fst x)); cbn [map]; [rewrite <- app_assoc|]; reflexivity.
+Qed.
+Lemma gfold_nodup items : forall g, NoDup (map fst g) -> NoDup (map fst (gfold items g)).
+Proof. induction items as [|x items IH]; intros g N; cbn [gfold fold_left]; auto. apply IH. apply group_add_nodup; auto. Qed.
+Lemma fold_as_gfold {A} (F : list (option str * list str) -> A -> list (option str * list str)) h :
+  (forall g x, F g x = gfold (h x) g) -> forall l g, fold_left F l g = gfold (flat_map h l) g.
+Proof.
+  intros H l. induction l as [|a l IH]; intro g; cbn [fold_left flat_map]; [reflexivity|].
+  unfold gfold. rewrite fold_left_app. fold (gfold (h a) g). rewrite <- H. apply IH.
+Qed.
+Lemma gmem_in g K vs : NoDup (map fst g) -> In (K, vs) g -> gmem K g = vs.
+Proof.
+  unfold gmem. induction g as [|[K' vs'] g IH]; cbn [map fst In List.find]; intros N H; [destruct H|].
+  inversion N as [|? ? Hn Hd]; subst. destruct H as [E|H].
+  - inversion E; subst. rewrite okey_eqb_refl. reflexivity.
+  - destruct (okey_eqb K K') eqn:E; [|auto]. apply okey_eqb_eq in E. subst K'. exfalso. apply Hn.
+    apply in_map_iff. exists (K, vs). auto.
+Qed.
+Lemma has_dup_iff g b : NoDup (map fst g) ->
+  (has_dup_group g b = true <-> exists o, 1 < length (if b then dedup (gmem (Some o) g) else gmem (Some o) g)).
+Proof.
+  intro N. unfold has_dup_group. rewrite existsb_exists. split.
+  - intros ([K vs] & Hin & H). cbn [fst snd] in H. destruct K as [o|]; [|discriminate]. exists o.
+    rewrite (gmem_in g (Some o) vs N Hin). apply Nat.ltb_lt. exact H.
+  - intros [o H]. unfold gmem in H. destruct (List.find _ g) as [[K vs]|] eqn:F.
+    + apply find_some in F as [Hin E]. cbn [fst] in E. apply okey_eqb_eq in E. subst K. exists (Some o, vs). split; auto.
+      cbn [fst snd]. apply Nat.ltb_lt. exact H.
+    + destruct b; cbn in H; lia.
+Qed.
+
+(* ---- the three duplicate checks against the naive specification ---- *)
+Section Checks.
+Variables (rs0 : list record) (c : conv) (m : list (str * str)).
+Hypothesis Hc : mk_conv true [58%N] rs0 = Val c.
+Hypothesis Nm : NoDup (map fst m).
+Let W0 : wf c rs0 [58%N] := mk_conv_wf _ _ _ Hc.
+
+Lemma std_owner p : std c p = option_map r_prefix (owner_by_prefix rs0 p).
+Proof. apply (wf_syn _ _ _ W0). Qed.
+Lemma names_same_std a b : names_same rs0 a b = true <-> exists o, std c a = Some o /\ std c b = Some o.
+Proof.
+  unfold names_same. rewrite !std_owner. destruct (owner_by_prefix rs0 a) as [x|], (owner_by_prefix rs0 b) as [y|]; cbn [option_map].
+  - rewrite str_eqb_eq. split; [intro E; exists (r_prefix x); rewrite E; auto|intros (o & E1 & E2); congruence].
+  - split; [discriminate|intros (o & _ & E); discriminate].
+  - split; [discriminate|intros (o & E & _); discriminate].
+  - split; [discriminate|intros (o & E & _); discriminate].
+Qed.
+Lemma Nm_pairs : NoDup m.
+Proof. apply (NoDup_map_inv fst). exact Nm. Qed.
+Lemma keys_differ x y : In x m -> In y m -> (x <> y <-> fst x <> fst y).
+Proof.
+  intros Hx Hy. split; [|intros H E; subst; auto]. intros Hne E. apply Hne. destruct x as [k v], y as [k' v']. cbn [fst] in E. subst k'.
+  rewrite (dict_functional' m k v v' Nm Hx Hy). reflexivity.
+Qed.
+
+(* checks 1 and 2: sel = fst (keys) / snd (values) *)
+Lemma check_pairs (sel : str * str -> str) :
+  has_dup_group (fold_left (fun g kv => group_add (std c (sel kv)) (sel kv) g) m []) false = true <-> two_pairs_same rs0 sel m = true.
+Proof.
+  rewrite (fold_as_gfold (fun g kv => group_add (std c (sel kv)) (sel kv) g) (fun kv => [(std c (sel kv), sel kv)]) (fun g x => eq_refl) m []).
+  rewrite has_dup_iff by (apply gfold_nodup; constructor).
+  assert (L: forall o, length (gmem (Some o) (gfold (flat_map (fun kv => [(std c (sel kv), sel kv)]) m) [])) =
+                       length (filter (fun kv => okey_eqb (Some o) (std c (sel kv))) m)).
+  { intro o. rewrite gmem_gfold. cbn [gmem List.find app]. rewrite map_length. clear. induction m as [|a l IH]; [reflexivity|].
+    cbn [flat_map app filter fst]. destruct (okey_eqb (Some o) (std c (sel a))); cbn [length]; rewrite IH; reflexivity. }
+  unfold two_pairs_same. split.
+  - intros [o H]. rewrite L in H. destruct (two_filter _ m Nm_pairs H) as (x & y & Hx & Hy & Hne & Px & Py).
+    apply okey_eqb_eq in Px, Py. apply existsb_exists. exists x. split; auto. apply existsb_exists. exists y. split; auto.
+    apply andb_true_iff. split.
+    + apply negb_true_iff, str_eqb_neq. apply keys_differ; auto.
+    + apply names_same_std. exists o. auto.
+  - intro H. apply existsb_exists in H as (x & Hx & H). apply existsb_exists in H as (y & Hy & H).
+    apply andb_true_iff in H as [Hne H]. apply negb_true_iff, str_eqb_neq in Hne. apply names_same_std in H as (o & E1 & E2).
+    exists o. rewrite L. apply (filter_two _ m x y); auto.
+    + apply keys_differ; auto.
+    + rewrite E1. apply okey_eqb_refl.
+    + rewrite E2. apply okey_eqb_refl.
+Qed.
+
+(* check 3 *)
+Definition items3 (kv : str * str) : list (option str * str) :=
+  (std c (fst kv), fst kv) :: if okey_eqb (std c (fst kv)) (std c (snd kv)) then [] else [(std c (snd kv), snd kv)].
+Lemma names3 o s : In s (gmem (Some o) (gfold (flat_map items3 m) [])) <-> In s (remap_names rs0 m) /\ std c s = Some o.
+Proof.
+  rewrite gmem_gfold. cbn [gmem List.find app]. rewrite in_map_iff. unfold remap_names. rewrite in_app_iff. split.
+  - intros ([K s'] & E & H). cbn [snd] in E. subst s'. apply filter_In in H as [H EK]. cbn [fst] in EK. apply okey_eqb_eq in EK. subst K.
+    apply in_flat_map in H as ([k v] & Hkv & H). unfold items3 in H. cbn [fst snd] in H. destruct H as [E|H].
+    + inversion E; subst. split; auto. left. apply in_map_iff. exists (s, v). auto.
+    + destruct (okey_eqb (std c k) (std c v)) eqn:EO; [destruct H|]. destruct H as [E|[]]. inversion E; subst. split; auto.
+      right. apply in_map_iff. exists (k, s). split; auto. apply filter_In. split; auto. cbn [fst snd].
+      apply negb_true_iff. destruct (names_same rs0 k s) eqn:NS; auto. apply names_same_std in NS as (o' & E1 & E2).
+      rewrite E1, E2, okey_eqb_refl in EO. discriminate.
+  - intros [[H|H] Es].
+    + apply in_map_iff in H as ([k v] & E & Hkv). cbn [fst] in E. subst k. exists (Some o, s). split; auto.
+      apply filter_In. split; [|apply okey_eqb_refl]. apply in_flat_map. exists (s, v). split; auto. unfold items3. cbn [fst snd].
+      rewrite Es. left; auto.
+    + apply in_map_iff in H as ([k v] & E & H). cbn [snd] in E. subst v. apply filter_In in H as [Hkv NS]. cbn [fst snd] in NS.
+      apply negb_true_iff in NS. exists (Some o, s). split; auto. apply filter_In. split; [|apply okey_eqb_refl].
+      apply in_flat_map. exists (k, s). split; auto. unfold items3. cbn [fst snd].
+      destruct (okey_eqb (std c k) (std c s)) eqn:EO.
+      * exfalso. apply okey_eqb_eq in EO. assert (X: names_same rs0 k s = true) by (apply names_same_std; exists o; rewrite EO; auto).
+        congruence.
+      * right. left. rewrite Es. reflexivity.
+Qed.
+Lemma check_names :
+  has_dup_group (fold_left (fun g kv =>
+              let nk := std c (fst kv) in let nv := std c (snd kv) in
+              let g1 := group_add nk (fst kv) g in
+              if okey_eqb nk nv then g1 else group_add nv (snd kv) g1) m []) true = true
+  <-> two_names_same rs0 (remap_names rs0 m) = true.
+Proof.
+  rewrite (fold_as_gfold _ items3) by (intros g x; unfold items3; cbv zeta; destruct (okey_eqb _ _); reflexivity).
+  rewrite has_dup_iff by (apply gfold_nodup; constructor). unfold two_names_same. split.
+  - intros [o H]. apply dedup_two in H as (a & b & Ha & Hb & Hne). apply names3 in Ha as [Ha Ea]. apply names3 in Hb as [Hb Eb].
+    apply existsb_exists. exists a. split; auto. apply existsb_exists. exists b. split; auto. apply andb_true_iff. split.
+    + apply negb_true_iff, str_eqb_neq. exact Hne.
+    + apply names_same_std. eauto.
+  - intro H. apply existsb_exists in H as (a & Ha & H). apply existsb_exists in H as (b & Hb & H).
+    apply andb_true_iff in H as [Hne H]. apply negb_true_iff, str_eqb_neq in Hne. apply names_same_std in H as (o & E1 & E2).
+    exists o. apply dedup_two. exists a, b. split; [apply names3; auto|]. split; [apply names3; auto|exact Hne].
+Qed.
+End Checks.
+
+(* ---- check 4: the layered loop raises CycleDetected exactly when following key -> value comes back to a key ---- *)
+Lemma follow_add m a : forall b s, follow m (a + b) s = match follow m a s with Some t => follow m b t | None => None end.
+Proof.
+  induction a as [|a IH]; intros b s; cbn [follow plus]; [reflexivity|]. destruct (dget s m) as [v|]; auto.
+Qed.
+Lemma follow_S_r m a s : follow m (S a) s = match follow m a s with Some t => dget t m | None => None end.
+Proof.
+  rewrite <- (Nat.add_1_r a), follow_add. destruct (follow m a s) as [t|]; auto. cbn [follow]. destruct (dget t m); reflexivity.
+Qed.
+Lemma remap_cycle_iff m : remap_cycle m = true <-> exists k n, In k (map fst m) /\ n < length m /\ follow m (S n) k = Some k.
+Proof.
+  unfold remap_cycle. rewrite existsb_exists. split.
+  - intros (k & Hk & H). apply existsb_exists in H as (n & Hn & H). apply in_seq in Hn. exists k, n. split; auto. split; [lia|].
+    destruct (follow m (S n) k) as [s|]; [|discriminate]. apply str_eqb_eq in H. subst s. reflexivity.
+  - intros (k & n & Hk & Hn & H). exists k. split; auto. apply existsb_exists. exists n. split; [apply in_seq; lia|].
+    rewrite H. apply str_eqb_refl.
+Qed.
+Lemma layers_S f p0 d0 :
+  layers (S f) (p0 :: d0) =
+    let d := p0 :: d0 in
+    let no_out := filter (fun v => negb (mem v (map fst d))) (map snd d) in
+    match no_out with
+    | [] => Raise ECycleDetected
+    | _ :: _ => bind (layers f (filter (fun kv => negb (mem (snd kv) no_out)) d))
+                     (fun rest => Val (sort_pairs (filter (fun kv => mem (snd kv) no_out) d) ++ rest))
+    end.
+Proof. reflexivity. Qed.
+
+(* a non-empty set of pairs closed under "the value is the key of another pair of the set" is never consumed *)
+Lemma layers_closed_raise (C : str * str -> Prop) : (exists p, C p) -> (forall a b, C (a, b) -> exists b', C (b, b')) ->
+  forall fuel d, (forall p, C p -> In p d) -> exists e, layers fuel d = Raise e.
+Proof.
+  intros [p1 Hp1] Hcl. induction fuel as [|f IH]; intros d Hd.
+  - destruct d as [|p0 d0]; [destruct (Hd p1 Hp1)|]. cbn [layers]. eauto.
+  - destruct d as [|p0 d0]; [destruct (Hd p1 Hp1)|]. rewrite layers_S. cbv zeta.
+    set (d := p0 :: d0) in *. set (no_out := filter _ (map snd d)).
+    destruct no_out as [|v vs] eqn:En; [eauto|]. rewrite <- En.
+    destruct (IH (filter (fun kv => negb (mem (snd kv) no_out)) d)) as [e He].
+    + intros [a b] Hab. apply filter_In. split; [apply Hd; auto|]. cbn [snd]. apply negb_true_iff, mem_false.
+      unfold no_out. intro Hin. apply filter_In in Hin as [_ Hn]. apply negb_true_iff, mem_false in Hn. apply Hn.
+      destruct (Hcl a b Hab) as [b' Hb']. apply in_map_iff. exists (b, b'). split; auto.
+    + rewrite He. cbn [bind]. eauto.
+Qed.
+
+Section Cycle.
+Variable m : list (str * str).
+Hypothesis Nm : NoDup (map fst m).
+
+Lemma cycle_closed k j : follow m (S j) k = Some k ->
+  let C := fun p : str * str => exists i, follow m i k = Some (fst p) /\ dget (fst p) m = Some (snd p) in
+  (exists p, C p) /\ (forall a b, C (a, b) -> exists b', C (b, b')) /\ (forall p, C p -> In p m).
+Proof.
+  intros Hj C.
+  assert (Hq: forall q, follow m (q * S j) k = Some k).
+  { induction q as [|q IHq]; [reflexivity|]. cbn [Nat.mul]. rewrite follow_add, Hj. exact IHq. }
+  assert (Hall: forall i, exists s, follow m i k = Some s).
+  { intro i. pose proof (Hq i) as H. rewrite Nat.mul_succ_r, Nat.add_comm, follow_add in H.
+    destruct (follow m i k) as [s|]; [eauto|discriminate]. }
+  split; [|split].
+  - cbn [follow] in Hj. destruct (dget k m) as [v|] eqn:E; [|discriminate]. exists (k, v). exists 0. cbn [fst snd follow]. auto.
+  - intros a b (i & Hi & Hab). cbn [fst snd] in Hi, Hab. destruct (Hall (S (S i))) as [s Hs].
+    assert (Hb: follow m (S i) k = Some b) by (rewrite follow_S_r, Hi; exact Hab).
+    rewrite follow_S_r, Hb in Hs. exists s, (S i). cbn [fst snd]. auto.
+  - intros [a b] (i & _ & Hab). cbn [fst snd] in Hab. apply dget_In. exact Hab.
+Qed.
+Lemma cycle_raises : remap_cycle m = true -> layers (length m) m = Raise ECycleDetected.
+Proof.
+  intro H. apply remap_cycle_iff in H as (k & n & _ & _ & H). destruct (cycle_closed k n H) as (A & B & D).
+  destruct (layers_closed_raise _ A B (length m) m D) as [e He]. rewrite He. f_equal.
+  apply (proj1 (layers_spec (length m) m (le_n _)) e He).
+Qed.
+Lemma cycle_inter : remap_cycle m = true -> inter (map fst m) (map snd m) <> [].
+Proof.
+  intro H. apply remap_cycle_iff in H as (k & n & Hk & _ & H). cbn [follow] in H. destruct (dget k m) as [v|] eqn:E; [|discriminate].
+  assert (Hv: In v (inter (map fst m) (map snd m))).
+  { apply inter_In. split.
+    - destruct n as [|n]; cbn [follow] in H; [inversion H; subst; exact Hk|].
+      destruct (dget v m) as [w|] eqn:E2; [|discriminate]. apply (dget_in_keys v m w E2).
+    - apply in_map_iff. exists (k, v). split; auto. apply dget_In. exact E. }
+  intro E0. rewrite E0 in Hv. destruct Hv.
+Qed.
+
+(* a non-empty part of the remapping in which every value is again a key contains a cycle (pigeonhole) *)
+Lemma closed_cycle d : d <> [] -> incl d m -> length d <= length m -> (forall v, In v (map snd d) -> In v (map fst d)) ->
+  remap_cycle m = true.
+Proof.
+  intros Hne Hincl Hlen Hcl. destruct d as [|[k0 v0] d0]; [congruence|]. set (d := (k0, v0) :: d0) in *. clear Hne.
+  assert (Hstep: forall s, In s (map fst d) -> exists b, dget s m = Some b /\ In b (map fst d)).
+  { intros s Hs. apply in_map_iff in Hs as ([a b] & E & Hab). cbn [fst] in E. subst a. exists b. split.
+    - apply in_dget; auto.
+    - apply Hcl. apply in_map_iff. exists (s, b). auto. }
+  assert (Hwalk: forall i, exists s, follow m i k0 = Some s /\ In s (map fst d)).
+  { induction i as [|i IHi]; [exists k0; split; [reflexivity|left; reflexivity]|].
+    destruct IHi as (s & Hs & Hin). destruct (Hstep s Hin) as (b & Hb & Hbin). exists b. rewrite follow_S_r, Hs. auto. }
+  set (n := length d) in *. set (f := fun i => follow m i k0).
+  assert (ND: ~ NoDup (map f (seq 0 (S n)))).
+  { intro N. assert (Hi: incl (map f (seq 0 (S n))) (map Some (map fst d))).
+    { intros x Hx. apply in_map_iff in Hx as (i & E & _). destruct (Hwalk i) as (s & Hs & Hin). unfold f in E. rewrite Hs in E.
+      subst x. apply in_map. exact Hin. }
+    pose proof (NoDup_incl_length N Hi) as L. rewrite !map_length, seq_length in L. unfold n in L. lia. }
+  assert (dec: forall x y : option str, {x = y} + {x <> y}) by (decide equality; apply str_eq_dec).
+  destruct (seq_dup dec f (S n) 0 ND) as (i & j & _ & Hij & Hj & E). unfold f in E.
+  destruct (Hwalk i) as (s & Hs & Hin). rewrite Hs in E.
+  replace j with (i + (j - i)) in E by lia. rewrite follow_add, Hs in E.
+  apply remap_cycle_iff. exists s, (j - i - 1). split; [|split].
+  - apply in_map_iff in Hin as (p & Ep & Hp). apply in_map_iff. exists p. split; auto.
+  - unfold n in *. lia.
+  - replace (S (j - i - 1)) with (j - i) by lia. symmetry. exact E.
+Qed.
+Lemma acyclic_layers : remap_cycle m = false ->
+  forall fuel d, length d <= fuel -> fuel <= length m -> incl d m -> exists out, layers fuel d = Val out.
+Proof.
+  intro Hno. induction fuel as [|f IH]; intros d Hl Hf Hincl.
+  - destruct d; [cbn [layers]; eauto|cbn [length] in Hl; lia].
+  - destruct d as [|p0 d0]; [cbn [layers]; eauto|]. rewrite layers_S. cbv zeta.
+    set (d := p0 :: d0) in *. set (no_out := filter _ (map snd d)).
+    destruct no_out as [|v vs] eqn:En.
+    + exfalso. assert (X: remap_cycle m = true); [|congruence].
+      apply (closed_cycle d); auto; [discriminate|lia|].
+      intros v Hv. destruct (mem v (map fst d)) eqn:M; [apply mem_In; exact M|]. exfalso.
+      assert (Hin: In v no_out) by (unfold no_out; apply filter_In; split; auto; rewrite M; reflexivity).
+      rewrite En in Hin. destruct Hin.
+    + rewrite <- En.
+      destruct (IH (filter (fun kv => negb (mem (snd kv) no_out)) d)) as [rest Hr].
+      * assert (Hv: In v no_out) by (rewrite En; left; auto).
+        assert (Hv': In v (map snd d)) by (unfold no_out in Hv; apply filter_In in Hv; apply Hv).
+        apply in_map_iff in Hv' as (kv & Ekv & Hkv).
+        assert (length (filter (fun kv => negb (mem (snd kv) no_out)) d) < length d).
+        { apply (filter_length_lt _ d kv); auto. rewrite Ekv. apply negb_false_iff. apply mem_In; auto. }
+        lia.
+      * lia.
+      * intros x Hx. apply filter_In in Hx as [Hx _]. apply Hincl. exact Hx.
+      * rewrite Hr. cbn [bind]. eauto.
+Qed.
+End Cycle.
+
+(* ---- the outcome of the validation is exactly the specified one ---- *)
+Theorem order_code rs0 c m : mk_conv true [58%N] rs0 = Val c -> NoDup (map fst m) ->
+  match spec_remap_error rs0 m with
+  | Some e => exists err, order_curie_remapping c m = Raise err /\ derive_code (@Raise conv err) = e
+  | None => exists ordering, order_curie_remapping c m = Val ordering
+  end.
+Proof.
+  intros Hc Nm. unfold order_curie_remapping, spec_remap_error.
+  pose proof (check_pairs rs0 c m Hc Nm fst) as C1. pose proof (check_pairs rs0 c m Hc Nm snd) as C2.
+  pose proof (check_names rs0 c m Hc) as C3. cbv zeta in C3.
+  destruct (has_dup_group _ false) eqn:D1.
+  - rewrite (proj1 C1 eq_refl). exists EDuplicateKeys. split; reflexivity.
+  - destruct (two_pairs_same rs0 fst m); [destruct C1 as [_ C1]; discriminate (C1 eq_refl)|]. clear C1 D1.
+    destruct (has_dup_group _ false) eqn:D2.
+    + rewrite (proj1 C2 eq_refl). exists EDuplicateValues. split; reflexivity.
+    + destruct (two_pairs_same rs0 snd m); [destruct C2 as [_ C2]; discriminate (C2 eq_refl)|]. clear C2 D2.
+      destruct (has_dup_group _ true) eqn:D3.
+      * rewrite (proj1 C3 eq_refl). exists EInconsistentMapping. split; reflexivity.
+      * destruct (two_names_same rs0 (remap_names rs0 m)); [destruct C3 as [_ C3]; discriminate (C3 eq_refl)|]. clear C3 D3.
+        destruct (remap_cycle m) eqn:Cy.
+        -- pose proof (cycle_inter m Cy) as NI. destruct (inter (map fst m) (map snd m)); [congruence|].
+           exists ECycleDetected. split; [apply cycle_raises; auto|reflexivity].
+        -- destruct (inter (map fst m) (map snd m)); [eauto|].
+           apply (acyclic_layers m Nm Cy (length m) m); auto. apply incl_refl.
+Qed.
+
 Theorem P_C11_model : forall k : rcase, valid_r k = true ->
   (match rc_op k with DRemapCurie _ => True | _ => False end) -> P_C11 k (model_robs k) = true.
 Proof.
@@ -322,11 +687,13 @@ Proof.
   destruct (rc_inputs k) as [|rs0 rest] eqn:Ein; [discriminate|]. clear Vn.
   destruct (inputs_head rs0 rest Vs) as (c & cs & Hc & Hseq).
   apply nodup_str_spec in Vm.
+  pose proof (order_code rs0 c m Hc Vm) as OC.
   unfold model_robs, input_convs. rewrite Ein, Hseq. unfold derive. rewrite Eop.
   destruct (remap_curie_prefixes c m) as [R|e] eqn:HR.
   - unfold P_C11. rewrite Eop, Ein.
-    change (existsb (Z.eqb 0) [11; 12; 13; 14]%Z) with false. change (negb (0 =? 0)%Z) with false. cbv iota.
     destruct (remap_full rs0 c m R Hc HR) as (ordering & rs & Ho & HP & HmkR & HL).
+    destruct (spec_remap_error rs0 m) as [e|]; [destruct OC as (err & E & _); congruence|]. clear OC.
+    change (negb (0 =? 0)%Z) with false. cbv iota.
     rewrite result_records_model, (sortedR R rs HmkR).
     rewrite (consistent_model R rs HmkR k), (len_model rs0 c R Hc rs HmkR HL), (uris_model rs0 c m R Hc Vm ordering rs Ho HP HmkR),
             (kept_model rs0 c m R Hc Vm ordering rs Ho HP HmkR), (invent_model rs0 c m R Hc ordering rs Ho HP HmkR).
@@ -341,8 +708,17 @@ Proof.
       destruct (clash_model rs0 c m R Hc ordering rs Ho HP HmkR new r2 E2 Hnk) as (x & Ex & Eu).
       rewrite Ex, Eu. apply str_eqb_refl.
   - unfold P_C11. rewrite Eop, Ein.
-    assert (D: documented e).
-    { destruct (remap_curie_main c m (mk_conv_swf _ _ _ Hc) Vm) as [(e' & He' & D)|(R & rs & HR' & _)]; congruence. }
-    destruct D as [-> | [-> | [-> | ->]]]; reflexivity.
+    (* the error comes from the validation: the main loop never raises *)
+    destruct (order_curie_remapping c m) as [ordering|e'] eqn:Ho.
+    + exfalso. pose proof (mk_conv_swf _ _ _ Hc) as S. destruct (init_inv c S) as (F0 & S0 & B0).
+      destruct (fold_never_raises c m (inter (map fst m) (map snd m)) (recs c) ordering S eq_refl (st0 c) F0 S0 B0
+                 (order_keys_nodup c m ordering Ho) (fun o H => match H with end)) as [st Hst].
+      destruct (remap_struct c m ordering st S Ho Hst) as (rs & R' & _ & _ & E2 & _). congruence.
+    + assert (Ee: e = e').
+      { unfold remap_curie_prefixes, remap_curie_records in HR. rewrite Ho in HR. cbn [bind] in HR. congruence. }
+      subst e'. destruct (spec_remap_error rs0 m) as [z|].
+      * destruct OC as (err & E & Ecode). assert (err = e) by congruence. subst err. rewrite Ecode. apply Z.eqb_refl.
+      * destruct OC as (o & E). discriminate.
 Qed.
+Print Assumptions order_code.
 Print Assumptions P_C11_model.
